@@ -142,6 +142,19 @@ def oracle_problem(rng, seq, descs, out):
         out.append(dict(kind="localized-choices", input=dict(inp, location=[a, b]),
                         detail="got %s want %s" % (fmt_choices(loc.choices_list), fmt_choices(want))))
     n_checks += 1
+    # well-formedness hypothesis of the Lean theorems (C12.SpaceWF / C15.ChoicesFit): sorted, pairwise
+    # disjoint, non-empty segments inside the sequence, variants of the segment's length, no duplicates
+    for name, cl in (("space", space.choices_list), ("localized-multichoices", loc.multichoices)):
+        okfit = True
+        prev_end = 0
+        for ch in cl:
+            vs = [str(v) for v in ch.variants]
+            if not (prev_end <= ch.start < ch.end <= n) or any(len(v) != ch.end - ch.start for v in vs) or len(set(vs)) != len(vs):
+                okfit = False
+            prev_end = ch.end
+        if not okfit:
+            out.append(dict(kind="space-not-wellformed:" + name, input=dict(inp, location=[a, b]), detail=fmt_choices(cl)))
+    n_checks += 1
     # size
     p = product(loc)
     sz = float(loc.space_size)
